@@ -34,6 +34,8 @@ def cases(tier, seed):
     rnd = random.Random(13000 + seed)
     reps = 1 if tier == "quick" else 24
     for _ in range(reps):
+        for nl, b, kind_ in itertools.product([2, 5, 20], [[], [2]], ["mt_interleaved", "mt_noninterleaved", "mt_noninterleaved_lazy"]):
+            yield {"kind": "poly", "num_locs": nl, "regime": "std", "batch": b, "dist": kind_, "seed": rnd.randrange(10**6)}
         for nl, regime, b, dtype in itertools.product(NLOCS, ["std", "smallvar", "largevar", "farmean"], [[], [3], [2, 3]], ["normal", "mvn_dense", "mvn_diag"]):
             if tier == "quick" and rnd.random() < 0.6:
                 continue
@@ -176,6 +178,14 @@ def _mkdist(kind, m, v):
 
     if kind == "normal":
         return torch.distributions.Normal(m, v.sqrt())
+    if kind.startswith("mt_"):
+        # multitask normal over (points x tasks) with unequal variances; covariance laid out point-major (interleaved) or
+        # task-major (non-interleaved) - the entry (i, t) is integrated against ITS variance either way
+        from gpytorch.distributions import MultitaskMultivariateNormal as MT
+
+        inter = kind == "mt_interleaved"
+        flat = v.reshape(*v.shape[:-2], -1) if inter else v.transpose(-1, -2).reshape(*v.shape[:-2], -1)
+        return MT(m, torch.diag_embed(flat) if kind != "mt_noninterleaved_lazy" else DiagLinearOperator(flat), interleaved=inter)
     if kind == "mvn_diag":
         return MVN(m, DiagLinearOperator(v))
     sd = v.sqrt()
@@ -215,7 +225,7 @@ def _poly(case, ctx, g):
     from gpytorch.utils.quadrature import GaussHermiteQuadrature1D as Q
 
     nl, b = case["num_locs"], case["batch"]
-    shape = (*b, 3)
+    shape = (*b, 3) if not case["dist"].startswith("mt_") else (*b, 3, 2)
     m, v = _mv(case, g, shape)
     with S.num_gauss_hermite_locs(nl):
         q = Q()
@@ -461,7 +471,9 @@ def _bern(case, ctx, g):
     sd = v.sqrt()
     C = sd.unsqueeze(-1) * (0.3 * torch.ones(n, n) + 0.7 * torch.eye(n)) * sd.unsqueeze(-2)
     lik = gpytorch.likelihoods.BernoulliLikelihood()
-    with torch.no_grad():
+    # (also under settings that concern the POSTERIOR's computation, not the distribution handed in: it carries its variances)
+    env_ = gpytorch.settings.skip_posterior_variances(True) if case["seed"] % 3 == 0 else __import__("contextlib").nullcontext()
+    with torch.no_grad(), env_:
         pr = lik(MVN(m, C)).probs
         pr2 = lik.marginal(MVN(m, C)).probs
     ref = torch.tensor([0.5 * math.erfc(-mm / math.sqrt(1 + vv) / math.sqrt(2)) for mm, vv in zip(m.reshape(-1).tolist(), v.reshape(-1).tolist())]).reshape(m.shape)
